@@ -173,9 +173,13 @@ def drive_arith(rec, quick):
     # dot products: u (nrows groups) x v (nrows x ncols groups)
     for nrows in list(range(0, 9 if quick else 34)) * (1 if quick else 3):
         for ncols, base in ((1, "reim4_vec_mat1col_product_"), (2, "reim4_vec_mat2cols_product_")):
-            for variant in ("ref", "avx2"):
+            for variant in ("ref", "avx2", "ref", "avx2"):
                 u = [grp(rng) for _ in range(nrows)]
                 v = [[grp(rng) for _ in range(ncols)] for _ in range(nrows)]
+                if nrows >= 2 and rng.random() < 0.5:      # rows that are exactly zero, in u or in v, next to rows that are not
+                    zero = [[0, 0] for _ in range(4)]
+                    u = [zero if rng.random() < 0.4 else g for g in u]
+                    v = [[zero if rng.random() < 0.2 else g for g in row] for row in v]
                 U, V, R = Buf(64 * nrows), Buf(64 * nrows * ncols), Buf(64 * ncols, fill=0xEE)
                 if nrows:
                     U.f64[:] = sum((grp_to_doubles(g) for g in u), [])
